@@ -74,7 +74,7 @@ def run(prop_id, tier, replay=None):
         print("replay: property holds on this input")
         return 0
 
-    proof = C.build_and_audit(prop_id, P.lean_targets, P.theorems)
+    proof = C.build_and_audit(prop_id, P.lean_targets, P.theorems, recheck=(tier == "thorough"))
 
     # ---- cases: corpus first, then generated -------------------------------------------
     cases = []
@@ -238,6 +238,7 @@ def run(prop_id, tier, replay=None):
             corpus_cases=ncorpus, search_cases=searched, histogram=hist,
             known_findings_hit={k: len(v) for k, v in known_hits.items()},
             extract_problems=proof["extract_problems"], broken=broken,
+            leanchecker=proof.get("leanchecker", "not run (quick tier)"),
             explanation=P.explanation,
         ),
         assumptions=P.assumptions, wall_s=round(wall, 2), violations=len(failures),
